@@ -614,6 +614,58 @@ pub fn exec(lineno: usize, l: &str) -> String {
                 _ => panic!("bad size"),
             }
         },
+        // projection for C01: do all six five-card entry points return the same in-range value for all 120 slot orders?
+        "perm5" => {
+            let v = nums();
+            let r = guard(|| {
+                let v0 = Five::from(a5(&v)).hand_rank_value();
+                let mut same = true;
+                let mut p = [0usize, 1, 2, 3, 4];
+                let mut c = [0usize; 5];
+                let mut i = 0;
+                let mut check = |p: &[usize; 5]| {
+                    let w = [v[p[0]], v[p[1]], v[p[2]], v[p[3]], v[p[4]]];
+                    let h = Five::from(a5(&w));
+                    same &= h.hand_rank_value() == v0
+                        && h.hand_rank().value == v0
+                        && h.hand_rank_value_and_hand().0 == v0
+                        && h.hand_rank_value_validated() == v0
+                        && h.hand_rank_validated().value == v0
+                        && evaluate::five_cards(a5(&w)) == v0;
+                };
+                check(&p);
+                while i < 5 {
+                    if c[i] < i {
+                        if i % 2 == 0 { p.swap(0, i) } else { p.swap(c[i], i) }
+                        check(&p);
+                        c[i] += 1;
+                        i = 0;
+                    } else {
+                        c[i] = 0;
+                        i += 1;
+                    }
+                }
+                format!("{} {}", b(same), b((1..=7462).contains(&v0)))
+            });
+            push_opt(&mut o, r);
+        },
+        // projection for C06: is the rank record reported for a hand the conversion of the hand's value (plain and
+        // validated), and not Invalid?
+        "hrself" => {
+            let v = nums();
+            let n = v[0] as usize;
+            fn hs<H: HandRanker + HandValidator>(h: &H, o: &mut String) {
+                push_opt(o, guard(|| b(h.hand_rank() == HandRank::from(h.hand_rank_value()))));
+                push_opt(o, guard(|| b(h.hand_rank_validated() == HandRank::from(h.hand_rank_value_validated()))));
+                push_opt(o, guard(|| b(!h.hand_rank().is_invalid() && h.hand_rank().is_a_valid_hand_rank())));
+            }
+            match n {
+                5 => hs(&Five::from(a5(&v[1..])), &mut o),
+                6 => hs(&Six::from(a6(&v[1..])), &mut o),
+                7 => hs(&Seven::from(a7(&v[1..])), &mut o),
+                _ => panic!("bad size"),
+            }
+        },
         // projection for C08: is the value (plain and validated) the same under all 24 relabellings of the four suits?
         // A relabelled card is rebuilt through the public accessors and `create`.
         "relabel" => {
@@ -825,6 +877,55 @@ pub fn exec(lineno: usize, l: &str) -> String {
             push_opt(&mut o, guard(|| b(f.is_some() && is(HandRankName::Flush, HandRankName::StraightFlush) == f)));
             push_opt(&mut o, guard(|| b(s.is_some() && is(HandRankName::Straight, HandRankName::StraightFlush) == s)));
             push_opt(&mut o, guard(|| b(sf.is_some() && is(HandRankName::StraightFlush, HandRankName::StraightFlush) == sf)));
+        },
+        // projection for C11 (sorting): non-increasing? same multiset as the input? in-place form agrees? idempotent?
+        "sortp" => {
+            let v = nums();
+            let n = v[0] as usize;
+            let input: Vec<u32> = v[1..].iter().map(|x| *x as u32).collect();
+            with_hand!(n, &v[1..], h, {
+                let s = h.sort();
+                let mut t = h;
+                t.sort_in_place();
+                let sa = s.to_arr();
+                let desc = sa.windows(2).all(|w| w[0] >= w[1]);
+                let mut a = input.clone();
+                let mut c = sa.to_vec();
+                a.sort_unstable();
+                c.sort_unstable();
+                let _ = write!(o, " {} {} {} {}", b(desc), b(a == c), b(t.to_arr() == sa), b(s.sort().to_arr() == sa));
+            });
+        },
+        // projection for C15 (set from a hand): count = distinct real cards among the slots; each of them is a member; no bit
+        // above the 52 card bits; peeling lists exactly those cards in deck order, then blank with the set unchanged
+        "bcsetp" => {
+            let v = nums();
+            let n = v[0] as usize;
+            let bc = match n {
+                2 => BinaryCard::from_two(Two::from(a2(&v[1..]))),
+                3 => BinaryCard::from_three(Three::from(a3(&v[1..]))),
+                4 => BinaryCard::from_four(Four::from(a4(&v[1..]))),
+                5 => BinaryCard::from_five(Five::from(a5(&v[1..]))),
+                6 => BinaryCard::from_six(Six::from(a6(&v[1..]))),
+                7 => BinaryCard::from_seven(Seven::from(a7(&v[1..]))),
+                _ => panic!("bad size"),
+            };
+            let deck = ckc_rs::deck::POKER_DECK.arr();
+            let members: Vec<u32> = deck.iter().copied().filter(|c| v[1..].iter().any(|w| *w as u32 == *c)).collect();
+            let count_ok = bc.number_of_cards() as usize == members.len();
+            let has_ok = members.iter().all(|c| bc.has(BinaryCard::from_ckc(*c)));
+            let no_overflow = bc >> 52 == 0;
+            let mut x = bc;
+            let mut peeled: Vec<u32> = Vec::new();
+            for _ in 0..members.len() {
+                let r = x.peel();
+                peeled.push(<CKCNumber as PokerCard>::from_binary_card(r));
+            }
+            let rest = x;
+            let last = x.peel();
+            let peel_ok = peeled == members && last == 0 && x == rest && rest == 0;
+            let valid_ok = bc.is_valid() == !members.is_empty();
+            let _ = write!(o, " {} {} {} {} {}", b(count_ok), b(has_ok), b(no_overflow), b(peel_ok), b(valid_ok));
         },
         "sort" => {
             let v = nums();
